@@ -6,7 +6,7 @@ by exact interval algebra over the integers.
 """
 import ast
 
-from ..dectable import IntSet, int_table, label_lookup_table, label_table, sym_int_table
+from ..dectable import IntSet, int_table, label_lookup_table, label_loop_table, label_table, sym_int_table
 from ..loader import AnalysisError
 from ..report import key
 
@@ -43,10 +43,19 @@ def run(ctx):
             raise AnalysisError("scale function signature changed: %s / %s" % (fv.id, tv.id))
         # the comparison-chain form is read directly; anything else (arithmetic on the value, table lookups) goes through
         # the symbolic reader -- both give exact regions, neither executes the code
+        from ..tableeval import Evaluator as _Ev
+        _ev = _Ev(prog, allow_dyn=True)
+
+        def resolve_seq(name, _scope=fv.scope):
+            try:
+                v = _ev.eval(ast.Name(id=name, ctx=ast.Load()), _scope)
+            except AnalysisError:
+                return None
+            return v if isinstance(v, (list, tuple, dict)) else None
         try:
             rows = int_table(fv.node, fv.params[0])
             # self-check of the two readers against each other (same function, two independent derivations)
-            rows2 = sym_int_table(fv.node, fv.params[0])
+            rows2 = sym_int_table(fv.node, fv.params[0], resolve_seq)
 
             def by_outcome(rs):
                 d = {}
@@ -58,7 +67,7 @@ def run(ctx):
         except AnalysisError as e:
             if "disagree" in str(e):
                 raise
-            rows = sym_int_table(fv.node, fv.params[0])
+            rows = sym_int_table(fv.node, fv.params[0], resolve_seq)
         # labels are matched EXACTLY: the label argument is only compared (==, in), used as a lookup key, type-tested, or
         # quoted in the error message.  Any conversion on the way (int(), str(), .strip(), .lower(), float(), arithmetic)
         # makes strings that are not labels ('05', ' 7', '+3', other objects) acceptable -- decided before the table is read
@@ -108,7 +117,10 @@ def run(ctx):
                 except AnalysisError:
                     return None
                 return v if isinstance(v, dict) else None
-            ltab, ldefault = label_lookup_table(tv.node, tv.params[0], resolve)
+            try:
+                ltab, ldefault = label_lookup_table(tv.node, tv.params[0], resolve)
+            except AnalysisError:
+                ltab, ldefault = label_loop_table(tv.node, tv.params[0], resolve_seq)
         tables[sname] = {"from_value": [{"region": r.to_json(), "outcome": list(oc)} for r, oc, ln, _ in rows],
                          "to_value": {k: list(v) for k, v in ltab.items()}, "to_value_else": list(ldefault)}
         base = key(m.relpath, sc["from_value"], "")
